@@ -857,6 +857,10 @@ fn thread_body(t: usize, nthreads: usize, nops: u32, cfg: GenCfg, errs: Arc<Mute
     // ... and is then dropped in a drawn order (streams too)
     let mut rest: Vec<(Option<Item>, Option<Stream>)> = bag.into_iter().map(|i| (Some(i), None)).collect();
     rest.extend(streams.into_iter().map(|s| (None, Some(s))));
+    if nthreads == 1 {
+        // (thorough tier: the drop order of a single-threaded run is enumerated, see `enumerate_drop_orders`)
+        FINAL_DROPS.store(((crate::choice::log_len() as u64) << 8) | rest.len().min(255) as u64, Ordering::SeqCst);
+    }
     while !rest.is_empty() {
         sched::yield_point(100);
         let k = if rest.len() > 1 { draw(rest.len() as u32) as usize } else { 0 };
@@ -874,7 +878,15 @@ fn thread_body(t: usize, nthreads: usize, nops: u32, cfg: GenCfg, errs: Arc<Mute
         } else {
             Ok(())
         };
-        let r = r.and_then(|_| check_conservation("drop at thread end"));
+        // whatever is left must be untouched by that drop
+        let r = r.and_then(|_| check_conservation("drop at thread end")).and_then(|_| {
+            for (it, _) in &rest {
+                if let Some(it) = it {
+                    read_item(it, "survivor of a drop at thread end")?;
+                }
+            }
+            Ok(())
+        });
         if let Err(v) = r {
             errs.lock().unwrap_or_else(|e| e.into_inner()).push(v);
             break;
@@ -884,7 +896,52 @@ fn thread_body(t: usize, nthreads: usize, nops: u32, cfg: GenCfg, errs: Arc<Mute
     libcall("drop rest", move || drop(rest.into_iter().map(|(i, s)| (i.map(|i| i.v), s.map(|s| s.stream))).collect::<Vec<_>>())).ok();
 }
 
+/// (position of the first final-drop draw << 8) | number of things to drop; 0 = not a single-threaded run
+static FINAL_DROPS: std::sync::atomic::AtomicU64 = std::sync::atomic::AtomicU64::new(0);
+
+/// Thorough tier: for a single-threaded base run that ends with 2..=5 live values / streams, every order in
+/// which they can be dropped (the base run drew one of them). The drop order is the tail of the choice stream:
+/// draw(n), draw(n-1), ..., draw(2), each an index into what is left.
+pub fn enumerate_drop_orders(base: &[u32]) -> Vec<Vec<u32>> {
+    let rec = FINAL_DROPS.load(Ordering::SeqCst);
+    let (pos, n) = ((rec >> 8) as usize, (rec & 255) as usize);
+    let mut out = Vec::new();
+    if rec == 0 || !(2..=5).contains(&n) {
+        return out;
+    }
+    // 120 orders for five sharers: only for one base run in four
+    if n == 5 && base.iter().fold(0u32, |a, b| a.wrapping_mul(31).wrapping_add(*b)) % 4 != 0 {
+        return out;
+    }
+    let mut prefix = base.to_vec();
+    prefix.resize(pos.max(prefix.len().min(pos)), 0);
+    prefix.truncate(pos);
+    let mut idx = vec![0u32; n - 1];
+    loop {
+        let mut c = prefix.clone();
+        c.extend_from_slice(&idx);
+        let same = (0..n - 1).all(|k| base.get(pos + k).copied().unwrap_or(0) == idx[k]);
+        if !same {
+            out.push(c);
+        }
+        // next tuple: idx[k] < n - k
+        let mut k = n - 1;
+        loop {
+            if k == 0 {
+                return out;
+            }
+            k -= 1;
+            idx[k] += 1;
+            if (idx[k] as usize) < n - k {
+                break;
+            }
+            idx[k] = 0;
+        }
+    }
+}
+
 pub fn run() -> SimResult {
+    FINAL_DROPS.store(0, Ordering::SeqCst);
     let nthreads = range(1, 3) as usize;
     let mut cfg = GenCfg::small();
     cfg.max_depth = range(1, 3);
